@@ -505,6 +505,11 @@ def _run(case, out, tmp):
             left = [io_ for (group, path), io_ in mgr.ios.items() if group is m]
             if left:
                 return out.fail("close-leaves-specs", "after close() the io manager still holds %r" % (left,), i)
+            for st2 in models:
+                if st2.open:
+                    f = check_model(st2, out, op, i, models)
+                    if f:
+                        return f
             continue
         elif k == "roundtrip":
             f = roundtrip(st_, out, tmp, i)
@@ -519,9 +524,11 @@ def _run(case, out, tmp):
             cs = byval.get(vid, [])
             if any(x.endswith(".A") for x in cs) and any(x.endswith(".B") for x in cs):
                 multi.add(vid)
-        f = check_model(st_, out, op, i, models)
-        if f:
-            return f
+        for st2 in models:      # (an operation on one model must leave the specs of the others alone)
+            if st2.open:
+                f = check_model(st2, out, op, i, models)
+                if f:
+                    return f
         try:
             mx.core.mxsys._check_sanity()
         except AssertionError as a:
